@@ -324,6 +324,32 @@ def law_class(ctx, cat, tname, spec):
                                            f"isinstance(x, {tname}) = {isinstance(v, T)}, {cat}[Any, {spec!r}] gives {accepts(ref, v)}")
 
 
+# ---------------------------------------------------------------------------------------- law NA
+class _OnlyShape:
+    shape = (3,)
+
+
+class _OnlyDtype:
+    dtype = "float32"
+
+
+def law_non_arrays(ctx):
+    """A value that is not array-like (it lacks .shape or .dtype, or both) is rejected -- with False, never with an exception -- by every
+    annotation whose array type is Any or an unconstrained TypeVar (they 'stand for any array-like object')."""
+    values = {"memoryview": memoryview(b"abcd"), "np.dtype instance": np.dtype("float32"), "object with .shape only": _OnlyShape(), "object with .dtype only": _OnlyDtype(),
+              "None": None, "int": 3, "str": "s", "list": [1.0, 2.0], "range": range(3)}
+    for cat in ("Shaped", "Float", "Int8", "Num"):
+        for at_name, at in (("Any", Any), ("TypeVar", T_PLAIN)):
+            for spec in ("", "...", "a", "*v 3"):
+                ann = getattr(jaxtyping, cat)[at, spec]
+                for vname, v in values.items():
+                    with jaxtyped("context"):
+                        got = accepts(ann, v)
+                    ctx.note(["NA", cat, at_name, spec, vname], vname in ("memoryview", "np.dtype instance", "object with .shape only", "object with .dtype only"), classes=["law-NA"])
+                    if got != "False":
+                        raise Violation("NA-law", {"law": "NA"}, f"isinstance(<{vname}>, {cat}[{at_name}, {spec!r}]) = {got}; a value without both .shape and .dtype is not array-like: False")
+
+
 # ---------------------------------------------------------------------------------------- law S
 SCALARS = {"bool": bool, "int": int, "float": float, "complex": complex}
 
@@ -497,6 +523,11 @@ def run(ctx):
             law_class(ctx, cat, tname, spec)
     except Violation as v:
         ctx.record(v)
+    if ctx.shard == 1 % ctx.nshards:
+        try:
+            law_non_arrays(ctx)
+        except Violation as v:
+            ctx.record(v)
     if ctx.shard == 0:
         try:
             law_aliases(ctx)
@@ -515,6 +546,8 @@ def replay(case, clause, ctx):
         elif case.get("law") == "S":
             rank0 = dict(RANK0).get(case["spec"], False)
             law_scalar(ctx, case["cat"], case["scalar"], case["spec"], rank0, case["in_union"])
+        elif case.get("law") == "NA":
+            law_non_arrays(ctx)
         elif case.get("law") == "S2":
             law_scalar_pair(ctx, case["cat"], case["scalars"][0], case["scalars"][1], case["spec"], dict(RANK0).get(case["spec"], False), case["with_array"])
         elif case.get("law") == "C":
